@@ -25,7 +25,7 @@ type Profile struct {
 	Prop        string
 	Restricted  int  // max restricted callers
 	HTTPMode    int  // 0 never, 1 coin, 2 always
-	RestartMode int  // 0 never, 1 coin between random/every-op, 2 every op
+	RestartMode int  // 0 never, 1 coin between random/every-op, 2 every op, 3 a third of the runs at random points
 	AuditFaults bool // C06
 	Corruptions bool // C08
 	Scan        bool // C05 marker scan
@@ -101,6 +101,8 @@ func RunSeq(s *kernel.Sim, prof *Profile) *Env {
 		}
 	case 2:
 		restartEvery = true
+	case 3:
+		restartRandom = t.Bool(1, 3)
 	}
 	nOps := t.Range(3, prof.MaxOps)
 	w := make([]int, model.NumOps)
@@ -830,6 +832,13 @@ func (e *Env) judgeAudit(ctx *OpCtx, mop model.Op, res model.Res, recs []AuditRe
 		}
 		e.fail("audit", "%s -> %s: no audit record {principal=%s action=%s secret=%q version=%d authorized=%v} was written before the call returned; records: %q",
 			desc, res, c.Node, action, secret, version, auth, got)
+	}
+	if allowed && res.Class != model.OK && mop.Kind != model.OpGetIfChanged {
+		// A granted call that failed (no value returned, nothing took
+		// effect) needs no record by the statement: it may have been turned
+		// away before the store (a size limit, say) or after it.
+		e.S.Probe("audit-not-required")
+		return
 	}
 	switch mop.Kind {
 	case model.OpList:
